@@ -1,23 +1,139 @@
 """C03: connection loss fails every unanswered command once; nothing left pending (DESIGN.md 5/C03)."""
 import core
 import ctl_common as cc
+from coqterm import C, N, L
 from drive_C01 import gen_session
+
+
+# ---- command-level histories with caller-side cancellation (Spec/C03Cancel.v) ----
+def run_cancel(case):
+    """ops: ['submit'] | ['cancel', k] | ['reply'] | ['lose'] on a real TorControlProtocol; the k-th
+    submitted command is `GETINFO c<k>`; observations per op: ['wrote', k] / ['res', k, outcome]"""
+    from twisted.internet.defer import CancelledError
+    from twisted.internet.error import ConnectionDone
+    from twisted.python.failure import Failure
+    from twisted.test.proto_helpers import StringTransport
+    from txtorcon import TorControlProtocol
+    from txtorcon.torcontrolprotocol import TorDisconnectError
+    cur = []
+
+    class Tr(StringTransport):
+        def write(self, data):
+            line = bytes(data)
+            if line.startswith(b'GETINFO c') and line.endswith(b'\r\n'):
+                cur.append(['wrote', int(line[9:-2])])
+            else:
+                cur.append(['wrote', 999999])
+
+    proto = TorControlProtocol()
+    proto.connectionMade = lambda: None
+    proto.makeConnection(Tr())
+    ds = []
+
+    def watch(d, k):
+        def ok(v):
+            cur.append(['res', k, 'ok'])
+
+        def err(f):
+            if f.check(CancelledError):
+                cur.append(['res', k, 'cancelled'])
+            elif f.check(TorDisconnectError):
+                cur.append(['res', k, 'disc'])
+            else:
+                cur.append(['res', k, 'other:' + type(f.value).__name__])
+        d.addCallbacks(ok, err)
+
+    out = []
+    for o in case['ops']:
+        cur = []
+        try:
+            if o[0] == 'submit':
+                k = len(ds)
+                d = proto.queue_command('GETINFO c%d' % k)
+                ds.append(d)
+                watch(d, k)
+            elif o[0] == 'cancel':
+                ds[o[1]].cancel()
+            elif o[0] == 'reply':
+                proto.dataReceived(b'250 OK\r\n')
+            elif o[0] == 'lose':
+                proto.connectionLost(Failure(ConnectionDone()))
+        except Exception as e:                      # an exception of the implementation is an observation
+            cur.append(['res', 999999, 'raised:' + type(e).__name__])
+        out.append(cur)
+    return {'ops': out}
+
+
+def cancel_to_coq(case, obs):
+    def op(o):
+        return {'submit': 'QSubmit', 'reply': 'QReply', 'lose': 'QLose'}.get(o[0]) or C('QCancel', N(o[1]))
+
+    def ev(e):
+        if e[0] == 'wrote':
+            return C('QWrote', N(e[1]))
+        o = {'ok': 'QOk', 'disc': 'QDisc', 'cancelled': 'QCancelled'}.get(e[2])
+        if o is None:
+            return C('QWrote', N(888888))           # an outcome no reference trace contains
+        return C('QRes', N(e[1]), o)
+    return C('KCancel', L(op(o) for o in case['ops']), L(L(ev(e) for e in es) for es in obs['ops']))
+
+
+def gen_cancel(rng):
+    """a causal command-level history: replies only while a command awaits one, one loss, 0-3 commands after"""
+    ops = []
+    n = 0            # submitted
+    answered = 0
+    lost = False
+    length = rng.randrange(3, 16)
+    lose_at = rng.randrange(1, length + 1) if rng.random() < 0.85 else None
+    for i in range(length):
+        if lose_at == i and not lost:
+            ops.append(['lose'])
+            lost = True
+            continue
+        r = rng.random()
+        if lost:
+            if r < 0.6 or n == 0:
+                ops.append(['submit'])
+                n += 1
+            else:
+                ops.append(['cancel', rng.randrange(n)])
+            continue
+        if r < 0.45 or n == 0:
+            ops.append(['submit'])
+            n += 1
+        elif r < 0.75:
+            # cancel: prefer an unanswered command, sometimes an answered / already cancelled one
+            k = rng.randrange(answered, n) if answered < n and rng.random() < 0.8 else rng.randrange(n)
+            ops.append(['cancel', k])
+        elif answered < n:
+            ops.append(['reply'])
+            answered += 1
+        else:
+            ops.append(['submit'])
+            n += 1
+    if lose_at is not None and not lost:
+        ops.append(['lose'])
+    return {'fam': 'cancel', 'ops': ops}
 
 
 class P(core.Prop):
     pid = 'C03'
     check_mod = 'Check.C03'
     spec_mod = 'Check.C03_spec'
-    extra_imports = 'From TxVerif Require Import Spec.Ctl Spec.CtlOracle.\n'
+    extra_imports = 'From TxVerif Require Import Spec.Ctl Spec.CtlOracle Spec.C03Cancel.\n'
     quick_n = 1500
     thorough_n = 30000
     shard = 300
     design_ref = '5/C03'
-    rule = ('C01 sessions cut by a connection loss at a random byte offset (idle, mid-line, mid-reply, '
+    rule = ('(a) C01 sessions cut by a connection loss at a random byte offset (idle, mid-line, mid-reply, '
             'mid-data-block), 0-5 commands queued at the loss, 0-5 submitted after it (some from inside the '
             'errback of another command), 0-3 disconnect-notification requests before and after; thorough adds '
             'every byte offset of 200 sessions. non-trivial = a command outstanding at the loss or submitted '
-            'after it')
+            'after it. (b) one case in five: command-level histories of 3-16 operations (submit, cancel of any '
+            'submitted command - mostly unanswered ones -, whole 250 OK reply while a command awaits one, one '
+            'loss at a random position in 85%, submissions and cancels after it); thorough adds every history of '
+            'length <= 6 over {submit, cancel 0, cancel 1, reply, lose}')
     trusted = ['Twisted LineOnlyReceiver / StringTransport; the Deferred callbacks of the harness']
     assumptions = ['connectionLost is delivered once, and no bytes arrive after it',
                    'the deprecated on_disconnect Deferred has no callbacks']
@@ -75,6 +191,9 @@ class P(core.Prop):
     def generate(self, rng, tier, n):
         out = []
         for _ in range(n):
+            if rng.random() < 0.2:
+                out.append(gen_cancel(rng))
+                continue
             items, atoms = gen_session(rng, events=0.1, scripts=0.35, oklike=False)
             ops = cc.atoms_to_ops(rng, atoms)
             out.append({'items': items, 'ops': self.cut_at(rng, items, ops), 'lbehs': {}})
@@ -92,27 +211,64 @@ class P(core.Prop):
             total = sum(len(o[1]) // 2 for o in ops if o[0] == 'recv')
             for pos in range(0, min(total, 160) + 1):
                 out.append({'items': items, 'ops': self.cut_at(random.Random(pos), items, ops, pos), 'lbehs': {}})
-        return out, 'the loss at every byte offset (up to 160) of 200 sessions'
+        import itertools
+        alpha = [['submit'], ['cancel', 0], ['cancel', 1], ['reply'], ['lose']]
+        for ln in range(1, 7):
+            for t in itertools.product(alpha, repeat=ln):
+                n = a = 0
+                lost = False
+                good = True
+                for o in t:
+                    if o[0] == 'submit':
+                        n += 1
+                    elif o[0] == 'cancel':
+                        good = good and o[1] < n
+                    elif o[0] == 'reply':
+                        good = good and not lost and a < n
+                        a += 1
+                    elif o[0] == 'lose':
+                        good = good and not lost
+                        lost = True
+                if good and n >= 1:
+                    out.append({'fam': 'cancel', 'ops': [list(o) for o in t]})
+        return out, ('the loss at every byte offset (up to 160) of 200 sessions; every causal command-level history '
+                     'of length <= 6 over {submit, cancel 0, cancel 1, reply, lose}')
 
     def run_impl(self, case):
+        if case.get('fam') == 'cancel':
+            return run_cancel(case)
         return cc.run_ops(case)
 
     def to_coq(self, case, obs):
-        return cc.case_to_coq(case, obs)
+        if case.get('fam') == 'cancel':
+            return cancel_to_coq(case, obs)
+        return '(KSess %s)' % cc.case_to_coq(case, obs)
 
     def kind(self, case, obs):
         ops = case['ops']
+        if case.get('fam') == 'cancel':
+            lost = any(o[0] == 'lose' for o in ops)
+            nc = sum(1 for es in obs['ops'] for e in es if e[0] == 'res' and e[2] == 'cancelled')
+            return 'cancel/%s/%s' % ('lost' if lost else 'open', '0' if nc == 0 else ('1' if nc == 1 else '2+'))
         k = [i for i, o in enumerate(ops) if o[0] == 'lose'][0]
         pre = sum(1 for o in ops[:k] if o[0] == 'submit')
         post = sum(1 for o in ops[k:] if o[0] == 'submit')
         return 'pre=%s/post=%s' % ('0' if pre == 0 else ('1-2' if pre <= 2 else '3+'), '0' if post == 0 else '1+')
 
     def nontrivial(self, case, obs):
+        if case.get('fam') == 'cancel':
+            evs = [e for es in obs['ops'] for e in es if e[0] == 'res']
+            return any(e[2] == 'cancelled' for e in evs) and any(e[2] == 'disc' for e in evs)
         n_disc = sum(1 for op in obs['ops'] for e in op if e[0] == 'resolved' and e[2] == 'disc')
         return n_disc >= 1
 
     def shrink_candidates(self, case):
         ops = case['ops']
+        if case.get('fam') == 'cancel':
+            for i in range(len(ops) - 1, -1, -1):
+                if ops[i][0] in ('cancel', 'reply') or (ops[i][0] == 'submit' and i == len(ops) - 1):
+                    yield dict(case, ops=ops[:i] + ops[i + 1:])
+            return
         k = [i for i, o in enumerate(ops) if o[0] == 'lose'][0]
         for i in range(len(ops) - 1, -1, -1):
             if i != k and ops[i][0] in ('submit', 'whendisc') and (i > k):
